@@ -254,16 +254,19 @@ package scheduler
 // Waiters get the task's result, and an operation somebody waits on is not
 // collected as abandoned (C02)
 //@ func (*operation).waitExecution
-//@   props C02 C03
+//@   props C02 C03 C06
 //@   assume o.waiters < 1000000000 -- an operation does not have 2^64 concurrent waiters
 //@   loop 0 invariant o.cleanupKey == 0 && o.waiters >= 1 && o == old(o) && bq == old(bq)
 //@   at call leave#1 assert waited-on-operations-are-not-collected: o.cleanupKey == 0 && o.waiters >= 1
+//@   at call leave#1 ghostset wakeupseen[nil] = t.stageChangeWakeup
+//@   at call NewTimer#1 assert the-wake-up-channel-waited-on-is-the-one-read-under-the-lock: stageChangeWakeup == wakeupseen(nil)
 //@   at call enter#3 assume_post o.cleanupKey == 0 && o.waiters >= 1 -- rely: while this call is counted in o.waiters no other thread arms the operation's clean-up entry (maybeStartCleanup requires waiters == 0) and the count stays positive
 //@   at call enter#4 assume_post o.cleanupKey == 0 && o.waiters >= 1 -- rely: as above
 //@   at call Send#1 assert final-message-iff-the-task-has-its-response: operation.Done == (o.task.executeResponse != nil) && operation.Name == o.name
 
 // execdec(i): decrementExecutingWorkersCount calls that started at invocation i.
 //@ ghost map execdec(ref) int zero
+//@ ghost map wakeupseen(ref) int zero
 //@ func (*invocation).decrementExecutingWorkersCount
 //@   props C04
 //@   ghostset execdec[i] = old(execdec(i)) + 1
